@@ -337,7 +337,9 @@ def gen_tree(rng, depth):
         return ["un", rng.choice(list(UN)), sub()]
     if k == "select":
         which = rng.choice([[{"i": 0}], [{"i": -1}], [{"s": [None, 1, None]}], [{"s": [-2, None, None]}],
-                            [{"s": [None, None, -1]}], [{"i": 0}, {"i": 0}], [{"s": [1, None, None]}], [{"i": 1}], [{"i": -1}, {"i": 0}]])
+                            [{"s": [None, None, -1]}], [{"i": 0}, {"i": 0}], [{"s": [1, None, None]}], [{"i": 1}], [{"i": -1}, {"i": 0}],
+                            [{"i": -1}, {"i": -1}, {"i": -1}], [{"i": 0}, {"i": 1}, {"i": 0}, {"i": 1}], [{"i": 0}, {"i": 0}, {"i": 0}],
+                            [{"s": [None, None, None]}, {"i": 0}]])
         return ["select", which, [sub() for _ in range(rng.randint(1, 2))]]
     if k == "filter":
         return ["filter", rng.choice(list(PRED)), [sub() for _ in range(rng.randint(1, 2))]]
